@@ -1,15 +1,18 @@
 //! unit: u16d
 //! properties: C16
 //! note: how much the router may send over one channel: EffectiveCapacity::as_msat, DirectedChannelInfo::effective_capacity and max_htlc_from_capacity (the per-channel liquidity limit used by get_route) never exceed the channel's capacity or its advertised htlc_maximum_msat
-//! trusted: assume_specification for u64::checked_shr (std definition: None when the shift is >= 64) and core::cmp::min; R5: DirectedChannelInfo / ChannelInfo / ChannelUpdateInfo are skeletons with the fields effective_capacity reads, direction() is an external_body accessor; R8: `.map(|capacity_sats| capacity_sats * 1000)` -> match on the option (definition of Option::map)
+//! trusted: assume_specification for u64::checked_shr (std definition: None when the shift is >= 64) and core::cmp::min / core::cmp::max; R5: DirectedChannelInfo / ChannelInfo / ChannelUpdateInfo are skeletons with the fields effective_capacity reads, direction() is an external_body accessor; R8: `.map(|capacity_sats| capacity_sats * 1000)` -> match on the option (definition of Option::map)
 //! assume: capacity_sats <= 21e14 (total bitcoin supply), so capacity_sats * 1000 fits u64
 use vstd::prelude::*;
 verus! {
 pub assume_specification[u64::checked_shr](x: u64, rhs: u32) -> (r: Option<u64>)
     ensures r == (if rhs < 64 { Some(x >> rhs) } else { None::<u64> });
+use vstd::std_specs::cmp::*;
+use core::cmp;
+pub assume_specification<T: core::cmp::Ord>[core::cmp::max::<T>](a: T, b: T) -> (r: T)
+    ensures T::obeys_cmp_spec() ==> r == (if b.cmp_spec(&a) == core::cmp::Ordering::Less { a } else { b });
 pub assume_specification<T: core::cmp::Ord>[core::cmp::min::<T>](a: T, b: T) -> (r: T)
-    ensures r == a || r == b;
-pub fn min(a: u64, b: u64) -> (r: u64) ensures r == (if a <= b { a } else { b }) { if a <= b { a } else { b } }
+    ensures T::obeys_cmp_spec() ==> r == (if b.cmp_spec(&a) == core::cmp::Ordering::Less { b } else { a });
 //@extract lightning/src/routing/gossip.rs :: enum EffectiveCapacity
 //@derive Clone Copy
 //@end
@@ -35,10 +38,6 @@ pub proof fn lemma_shr_le(x: u64, s: u32) requires s < 64 ensures (x >> s) <= x
 { assert((x >> s) <= x) by (bit_vector) requires s < 64; }
 
 //@extract lightning/src/routing/router.rs :: fn max_htlc_from_capacity
-//@rw R8 ?
-    cmp::min(
-//@with
-    min(
 //@ret r
 //@ensures P C16 the-amount-the-router-allows-over-a-channel-never-exceeds-its-capacity-nor-its-advertised-htlc-maximum
     r as int <= cap_msat(capacity),
@@ -70,10 +69,6 @@ impl<'a> DirectedChannelInfo<'a> {
     self.channel.capacity_sats.map(|capacity_sats| capacity_sats * 1000)
 //@with
     match self.channel.capacity_sats { Some(capacity_sats) => Some(capacity_sats * 1000), None => None }
-//@rw R8 ?
-    cmp::min(
-//@with
-    min(
 //@ret r
 //@requires
     self.channel.capacity_sats is Some ==> self.channel.capacity_sats->Some_0 <= 21_000_000_0000_0000,
